@@ -188,60 +188,115 @@ func (c *Ctx) summariseArm(cc *ast.CaseClause, byteVar string) slotSummary {
 			}
 			body = f.Body
 		case *ast.RangeStmt:
-			if f.Key == nil || f.Value != nil || !isIntType(info.TypeOf(f.X)) {
-				s.why = "range loop not over an integer"
-				return s
+			keyName := func(e ast.Expr) string {
+				if id, ok := e.(*ast.Ident); ok && id.Name != "_" {
+					return id.Name
+				}
+				return ""
 			}
-			ivar = f.Key.(*ast.Ident).Name
-			a.idx[ivar] = "ι"
-			s.dir, s.domain = "asc", a.norm(f.X)
+			switch {
+			case isIntType(info.TypeOf(f.X)):
+				if f.Key == nil || f.Value != nil {
+					s.why = "range over an integer without an index variable"
+					return s
+				}
+				ivar = keyName(f.Key)
+				a.idx[ivar] = "ι"
+				s.dir, s.domain = "asc", a.norm(f.X)
+			default:
+				// range over an array of the node (N.keys, N.children) or a prefix of it
+				x := ast.Unparen(f.X)
+				dom := ""
+				if se, ok := x.(*ast.SliceExpr); ok && se.Low == nil && se.High != nil && se.Max == nil {
+					dom = a.norm(se.High)
+					x = ast.Unparen(se.X)
+				}
+				t := info.TypeOf(x)
+				if p, ok := t.Underlying().(*types.Pointer); ok {
+					t = p.Elem()
+				}
+				arr, isArr := t.Underlying().(*types.Array)
+				if !isArr || !strings.HasPrefix(a.norm(x), "N.") {
+					s.why = "range loop over something that is not an array of the node"
+					return s
+				}
+				if dom == "" {
+					dom = fmt.Sprint(arr.Len())
+				}
+				if f.Key != nil {
+					if k := keyName(f.Key); k != "" {
+						a.idx[k] = "ι"
+					}
+				}
+				if f.Value != nil {
+					if v := keyName(f.Value); v != "" {
+						a.idx[v] = a.norm(x) + "[ι]"
+					}
+				}
+				s.dir, s.domain = "asc", dom
+			}
 			body = f.Body
 		}
 		if body != nil {
 			var occ []string
-			for _, st := range body.List {
-				switch x := st.(type) {
-				case *ast.AssignStmt:
-					if x.Tok == token.DEFINE && len(x.Lhs) == 1 && len(x.Rhs) == 1 {
-						if _, isIdx := ast.Unparen(x.Rhs[0]).(*ast.IndexExpr); isIdx {
-							a.idx[x.Lhs[0].(*ast.Ident).Name] = a.norm(x.Rhs[0])
-							continue
+			var walkBody func(list []ast.Stmt) bool
+			walkBody = func(list []ast.Stmt) bool {
+				for _, st := range list {
+					switch x := st.(type) {
+					case *ast.AssignStmt:
+						if x.Tok == token.DEFINE && len(x.Lhs) == 1 && len(x.Rhs) == 1 {
+							if _, isIdx := ast.Unparen(x.Rhs[0]).(*ast.IndexExpr); isIdx {
+								a.idx[x.Lhs[0].(*ast.Ident).Name] = a.norm(x.Rhs[0])
+								continue
+							}
 						}
-					}
-					// push
-					if len(x.Rhs) == 1 {
-						if call, ok := ast.Unparen(x.Rhs[0]).(*ast.CallExpr); ok && isBuiltinCall(info, call, "append") && len(call.Args) == 2 {
-							ch := ast.Unparen(call.Args[1])
-							if cl, ok := ch.(*ast.CompositeLit); ok {
-								for _, el := range cl.Elts {
-									e := el
-									if kv, ok := el.(*ast.KeyValueExpr); ok {
-										e = kv.Value
-									}
-									if c.isNodeRefType(info.TypeOf(e)) {
-										ch = e
+						// push
+						if len(x.Rhs) == 1 {
+							if call, ok := ast.Unparen(x.Rhs[0]).(*ast.CallExpr); ok && isBuiltinCall(info, call, "append") && len(call.Args) == 2 {
+								ch := ast.Unparen(call.Args[1])
+								if cl, ok := ch.(*ast.CompositeLit); ok {
+									for _, el := range cl.Elts {
+										e := el
+										if kv, ok := el.(*ast.KeyValueExpr); ok {
+											e = kv.Value
+										}
+										if c.isNodeRefType(info.TypeOf(e)) {
+											ch = e
+										}
 									}
 								}
+								s.child = a.norm(ch)
+								continue
 							}
-							s.child = a.norm(ch)
+						}
+						s.why = "unrecognised statement in loop body"
+						return false
+					case *ast.IfStmt:
+						if x.Else == nil && x.Init == nil && len(x.Body.List) == 1 {
+							if br, ok := x.Body.List[0].(*ast.BranchStmt); ok && br.Tok == token.CONTINUE {
+								occ = append(occ, a.occFromSkip(x.Cond)...)
+								continue
+							}
+						}
+						// if occupied { push }
+						if x.Else == nil && x.Init == nil {
+							occ = append(occ, a.occFromGuard(x.Cond, nil)...)
+							if !walkBody(x.Body.List) {
+								return false
+							}
 							continue
 						}
+						s.why = "unrecognised if in loop body"
+						return false
+					default:
+						s.why = "unrecognised statement in loop body"
+						return false
 					}
-					s.why = "unrecognised statement in loop body"
-					return s
-				case *ast.IfStmt:
-					if x.Else == nil && len(x.Body.List) == 1 {
-						if br, ok := x.Body.List[0].(*ast.BranchStmt); ok && br.Tok == token.CONTINUE {
-							occ = append(occ, a.occFromSkip(x.Cond)...)
-							continue
-						}
-					}
-					s.why = "unrecognised if in loop body"
-					return s
-				default:
-					s.why = "unrecognised statement in loop body"
-					return s
 				}
+				return true
+			}
+			if !walkBody(body.List) {
+				return s
 			}
 			if s.child == "" {
 				s.why = "loop pushes nothing"
